@@ -1225,6 +1225,10 @@ func (env *Env) call(n *ast.CallExpr) TV {
 					name = "$n." + s
 				} else {
 					name = "$c." + s
+					if c.countersUsed == nil {
+						c.countersUsed = map[string]bool{}
+					}
+					c.countersUsed[name] = true
 				}
 			}
 		}
